@@ -74,6 +74,7 @@ def generate(rng, tier, count):
 
 
 run_impl = D.run_impl
+gen_tables = D.gen_tables
 
 
 def _exec_trace(sc):
